@@ -211,9 +211,9 @@ def run(run, replay=None):
         batches.append(("rank5", r5, [4] * len(r5), 1, False))
     else:
         r4 = cc.up_to_relabelling(4, cc.LABELS7)
-        batches.append(("rank4", r4, [6] * len(r4), 2, True))
-        r4b = cc.random_mats(rng, 4, cc.LABELS7, 150)
-        batches.append(("rank4deep", r4b, [8] * len(r4b), 2, True))
+        batches.append(("rank4", r4, [5] * len(r4), 2, True))
+        r4b = cc.random_mats(rng, 4, cc.LABELS7, 100)
+        batches.append(("rank4deep", r4b, [7] * len(r4b), 2, True))
         r5 = cc.random_mats(rng, 5, cc.LABELS7, 150, weights=[4, 3, 2, 1, 1, 1, 2])
         batches.append(("rank5", r5, [5] * len(r5), 1, False))
     # the Coxeter groups shipped as word-acceptor files (labels read off the file names; which pair of
@@ -241,7 +241,7 @@ def run(run, replay=None):
     run.extra["matrices"] = 0
     run.extra["elements"] = 0
     run.extra["reduced_words"] = 0
-    CH = 1200       # matrices per TLC run (bounds the size of TLC's output held in memory)
+    CH = 1500       # matrices per TLC run (bounds the size of TLC's output held in memory)
     jobs = []
     if quick or replay:
         # one TLC run for everything
